@@ -18,6 +18,9 @@ struct Edge {
     position: &'static str,
     /// direct | vec | option | map-value | map-key | array | slice | generic-arg | nested-generic-arg | nested-container
     via: &'static str,
+    /// the field carries a type override for this one language (`#[typeshare(swift(type = ".."))]`): that language prints
+    /// the override instead of the reference, every other language still refers to the target
+    ovr: Option<LangId>,
 }
 
 #[derive(Clone, Debug)]
@@ -116,12 +119,13 @@ fn gen_model(rng: &mut Rng, n: usize, edge_bits: Option<u64>, consts: bool) -> M
             _ => "alias-target",
         };
         let via = if nodes[*a].generic && rng.coin() { *rng.pick(&["own-param-pair", "own-param-in-map"]) } else { *rng.pick(&VIAS) };
-        edges.push(Edge { from: *a, to: *b, position, via });
+        let ovr = if matches!(position, "field" | "struct-variant-field") && rng.chance(1, 6) { Some(*rng.pick(&[LangId::Swift, LangId::Kotlin, LangId::Ts, LangId::Go])) } else { None };
+        edges.push(Edge { from: *a, to: *b, position, via, ovr });
         if via.contains("generic-arg") {
-            edges.push(Edge { from: *a, to: wrap_idx, position, via: "direct" });
+            edges.push(Edge { from: *a, to: wrap_idx, position, via: "direct", ovr });
         }
         if via.starts_with("own-param") {
-            edges.push(Edge { from: *a, to: pair_idx, position, via: "direct" });
+            edges.push(Edge { from: *a, to: pair_idx, position, via: "direct", ovr });
         }
     }
     if consts && rng.chance(1, 3) && n > 0 {
@@ -129,7 +133,7 @@ fn gen_model(rng: &mut Rng, n: usize, edge_bits: Option<u64>, consts: bool) -> M
         let ci = nodes.len();
         nodes.push(Node { stem: cst.clone(), name: format!("{}_C", cst.to_uppercase()), kind: 5, renamed: None, generic: false });
         let to = rng.below(n);
-        edges.push(Edge { from: ci, to, position: "const-type", via: "direct" });
+        edges.push(Edge { from: ci, to, position: "const-type", via: "direct", ovr: None });
     }
     // acyclicity by Tarjan-free check: repeated removal of nodes without outgoing edges (self loops count as cycles)
     let total = nodes.len();
@@ -156,6 +160,13 @@ fn gen_model(rng: &mut Rng, n: usize, edge_bits: Option<u64>, consts: bool) -> M
     Model { nodes, edges, order, acyclic }
 }
 
+fn ovr_attr(e: &Edge) -> String {
+    match e.ovr {
+        Some(l) => format!("#[typeshare({}(type = \"OvrT\"))] ", match l { LangId::Swift => "swift", LangId::Kotlin => "kotlin", LangId::Ts => "typescript", LangId::Go => "go", LangId::Scala => "scala", LangId::Python => "python" }),
+        None => String::new(),
+    }
+}
+
 fn render(m: &Model, rng: &mut Rng) -> String {
     let mut s = String::new();
     let wrap_name = m.nodes.iter().find(|n| n.kind == 4).map(|n| n.name.clone());
@@ -177,7 +188,7 @@ fn render(m: &Model, rng: &mut Rng) -> String {
                     s.push_str(&format!("    pub param_{}: Option<P>,\n", n.stem));
                 }
                 for (k, e) in my.iter().enumerate() {
-                    s.push_str(&format!("    pub r{k}_{}: {},\n", n.stem, ty_of(e, rng)));
+                    s.push_str(&format!("    {}pub r{k}_{}: {},\n", ovr_attr(e), n.stem, ty_of(e, rng)));
                 }
                 s.push_str("}\n\n");
             }
@@ -187,7 +198,7 @@ fn render(m: &Model, rng: &mut Rng) -> String {
                     if e.position == "newtype-variant" {
                         s.push_str(&format!("    V{k}{}({}),\n", cap(&n.stem), ty_of(e, rng)));
                     } else {
-                        s.push_str(&format!("    S{k}{} {{ inner_{}: {} }},\n", cap(&n.stem), n.stem, ty_of(e, rng)));
+                        s.push_str(&format!("    S{k}{} {{ {}inner_{}: {} }},\n", cap(&n.stem), ovr_attr(e), n.stem, ty_of(e, rng)));
                     }
                 }
                 s.push_str("}\n\n");
@@ -246,6 +257,14 @@ fn judge(case: &Case<Model>, rep: &mut Report) {
     for e in &m.edges {
         if e.from == e.to {
             continue;
+        }
+        // the language named in the field's type override prints the override: it does not refer to the target at all
+        if e.ovr == Some(case.lang) {
+            rep.count("edges_overridden_for_this_language", 1);
+            continue;
+        }
+        if e.ovr.is_some() {
+            rep.count("edges_overridden_for_another_language", 1);
         }
         let (a, b) = (&m.nodes[e.from], &m.nodes[e.to]);
         let (pa, pb) = (pos[&a.stem][0], pos[&b.stem][0]);
@@ -312,7 +331,7 @@ pub fn run(ctx: &Ctx) -> (Spec, Report) {
                     for b in 0..3 {
                         if (i as u64) & (1 << k) != 0 {
                             let position = if kinds[a] == 0 { "field" } else { *rng.pick(&["newtype-variant", "struct-variant-field"]) };
-                            edges.push(Edge { from: a, to: b, position, via: *rng.pick(&["direct", "vec", "option", "map-value"]) });
+                            edges.push(Edge { from: a, to: b, position, via: *rng.pick(&["direct", "vec", "option", "map-value"]), ovr: None });
                         }
                         k += 1;
                     }
